@@ -136,8 +136,8 @@ func localDiags(j *ast.Journal, withDecl bool) []J {
 }
 
 func c07Case(text, damaged string, first, last, k int, kind string) map[string]any {
-	j0, e0 := parser.Parse(text)
-	j1, e1 := parser.Parse(damaged)
+	j0, e0 := hxParse(text)
+	j1, e1 := hxParse(damaged)
 	errLines := func(es []parser.ParseError) []int {
 		out := []int{}
 		for _, e := range es {
